@@ -536,7 +536,11 @@ func writeEvidence(id, tier string, seed int64, spec CheckSpec, results []*harne
 	used := map[string]bool{}
 	unsupp := map[string]int{}
 	var allocInfo []any
+	confirmErrs := 0
 	for _, r := range results {
+		if r.E != nil {
+			confirmErrs += r.E.confirmErrors
+		}
 		h := map[string]any{"package": r.Spec.Pkg, "entry": r.Spec.Entry, "secondary": r.Spec.Secondary, "wall_s": r.Wall}
 		if r.Skipped != "" {
 			h["skipped"] = r.Skipped
@@ -648,6 +652,7 @@ func writeEvidence(id, tier string, seed int64, spec CheckSpec, results []*harne
 		"confirm_queries":         total.ConfirmQueries,
 		"confirm_unknown":         total.ConfirmUnknown,
 		"deciding_query_retries":  total.Retries,
+		"confirming_solver_errors": confirmErrs,
 		"solver_time_s":           solverTime,
 		"solver_queries":          solverQueries,
 		"solver_disagreements":    total.Disagreements,
